@@ -12,6 +12,8 @@ STRINGS = [
     "OC{[>|2|][<]CC[>][<]}|poisson(80)|COC{[>][<]CO[>], [<]C(C)O[>|0.5|][<]}|log_normal(90, 1.1)|F",
     "N{[$][$|0 2 1|]CC[$]; [$]O[$]}|flory_schulz(0.3)|{[$][$]CS[$]; [$][H][]}|gauss(60, 30)|",
 ]
+# transition lists on repeat units whose sums are not 1 (a graph build or a generation must not normalise them in place)
+STRINGS.insert(2, "{[][<]CC[>|0 0 7 0 0 3|], [<]CO[>|2 0 0 0 1 0|]; [<]F, [>][H] []}|gauss(90, 15)|")
 
 
 def choose_seeds(g, text):
@@ -36,7 +38,7 @@ def choose_seeds(g, text):
 def run(tier):
     g = common.import_repo()
     v = Verdict("C10", tier)
-    strings = STRINGS if tier == "thorough" else STRINGS[:5]
+    strings = STRINGS if tier == "thorough" else STRINGS[:6]
     # seeds are chosen with a RecordingRNG, but the replay uses numpy's default_rng: map through the drawn value
     seedmap = []
     for s in strings:
